@@ -338,7 +338,13 @@ func (g *Gen) SimpleFilter() *jpref.Eq {
 		if g.R.Intn(2) == 0 {
 			root = P(Root(), Nth(g.R.Intn(3)))
 		}
-		return Bin([]string{"gt", "lt", "neq", "eq"}[g.R.Intn(4)], []*jpref.Eq{P(At()), P(At(), Child(k))}[g.R.Intn(2)], root)
+		op := []string{"gt", "lt", "neq", "eq"}[g.R.Intn(4)]
+		elem := []*jpref.Eq{P(At()), P(At(), Child(k))}[g.R.Intn(2)]
+		if g.R.Intn(3) == 0 {
+			// the document operand first: the evaluator has to come back to the element for the second
+			return Bin(op, root, []*jpref.Eq{P(At()), P(At(), Child(k), Nth(0)), elem}[g.R.Intn(3)])
+		}
+		return Bin(op, elem, root)
 	case 11:
 		// membership in a list that comes from the data
 		return Bin("in", CInt(int64(1+g.R.Intn(30))), P(At(), Child(k)))
